@@ -38,6 +38,7 @@ mod readers;
 #[cfg(feature = "rv")]
 mod c10raw;
 mod anynum;
+mod keys;
 
 fn main() {
     let args: Vec<String> = std::env::args().collect();
@@ -129,6 +130,9 @@ fn main() {
     if prop == "C09" { readers::run(&mut sink, thorough, seed); }
     if prop == "C05" { readers::run(&mut sink, thorough, seed); }
     if prop == "C05" { c05::run_bytesctl(&mut sink, thorough, seed); }
+    // object-key position: escaping of char / String keys (C05), integers of every width as keys and values (C06)
+    if prop == "C05" { keys::run_esck(&mut sink, thorough, seed); }
+    if prop == "C06" { keys::run_ikey(&mut sink, thorough, seed); }
     sink.finish(stats);
 }
 
@@ -179,6 +183,7 @@ fn replay(sink: &mut common::Sink, toks: &[&str]) {
         "rd" | "rs" => readers::replay(sink, toks),
         "rsa" => readers::replay(sink, toks),
         "anynum" => anynum::replay(sink, toks),
+        "esck" | "ikey" | "rsk" => keys::replay(sink, toks),
         _ => eprintln!("cannot replay op {}", toks[0]),
     }
 }
